@@ -46,6 +46,8 @@ def enum_orderings(maxlen, max_t=3, reentrant=RE):
         if ctxb and attaches == 1:
             for i in live_t[:1]:
                 nxt.append(("b%d" % i, None))
+                if fin:
+                    nxt.append(("c%d" % i, None))   # late second continuation that captures a copy of its own task
         if ctxb and attaches == 2:
             nxt.append(("y", None))
         if not fin:
@@ -69,7 +71,7 @@ def enum_orderings(maxlen, max_t=3, reentrant=RE):
                 m2["attach_after_finish"] = fin
                 if fin:
                     ps2, ts2, ctx2 = reent(R, ps2, ts2, ctx2)
-            elif op[0] == "b":
+            elif op[0] in ("b", "c"):
                 at2 = 2
                 m2["second"] = True
                 m2["second_after_finish"] = fin
